@@ -292,6 +292,24 @@ def judge(ctx, case, real, model, idx):
 
 def run(ctx: C.Ctx):
     rng = ctx.rng
+    from .. import shapes_static
+    offenders, table = shapes_static.static_part(ctx)
+    n_before = len(ctx.violations)
+    _dynamic(ctx, rng)
+    if offenders:
+        why = {t["site"]: t.get("why") for t in table if not t["found"]}
+        names = ", ".join("shape_" + o + (f" (untranslatable: {why[o]})" if why.get(o) else "") for o in offenders)
+        if any(v.kind == "concrete" for v in ctx.violations[n_before:]):
+            ctx.notes.append("generated shape theorems that no longer check: " + names)
+        else:
+            ctx.violation("no-failing-input-found",
+                          "generated shape theorem(s) no longer check: " + names + " – the differential run on the real shapes found no wrong answer",
+                          {"signature": "shape-obligation:" + offenders[0], "offenders": offenders, "why": why},
+                          broken="theorem(s) " + ", ".join("PsVerif.Gen.shape_" + o for o in offenders) + " (PsVerif/Generated/Shapes.lean, regenerated "
+                                 "from pysensors/utils/_constraints.py)")
+
+
+def _dynamic(ctx, rng):
     cases, reals = [], []
     for idx in range(ctx.scale(260, 5000)):
         case = gen_case(ctx, rng)
